@@ -99,7 +99,7 @@ class Closure:
 class Frame:
     __slots__ = ('info', 'locals', 'enclosing', 'gen', 'first_arg', 'defcls', 'loop_counter', 'call_counter',
                  'reduce_counter', 'reduce_site', 'join_counter', 'model_site', 'loop_index', 'map_counter',
-                 'undeclared_loop_names')
+                 'undeclared_loop_names', 'assumed', 'proving')
 
     def __init__(self, info, locals_, enclosing, first_arg=None, defcls=None):
         self.info = info
@@ -118,6 +118,8 @@ class Frame:
         self.loop_index = {}
         self.map_counter = 0
 
+        self.assumed = False    # the truth of this frame's result is about to be assumed (see Interp.call_assumed)
+        self.proving = None     # (obligation name, meta): the truth of this frame's result is to be proved
 
 class PartialObj:
     """functools.partial of an interpreted callable / with symbolic arguments"""
@@ -280,6 +282,8 @@ class Interp:
         self.fn_name = '?'
         self.frame_stack = []
         self.cover_file = None
+        from . import strings as _strings
+        st.on_fact = lambda t: _strings.learn(self, t)
         self.loop_index_stack = []     # index terms of the enclosing symbolic loops (arbitrary iteration)
         self.loop_frame_stack = []     # arbitrary iterations being executed: declared object fields, new objects
         self.collect = None            # (code object, YSeq): the generator function under verification
@@ -384,10 +388,13 @@ class Interp:
                                     % (info.qualname, next(iter(kwargs)))))
         return loc
 
-    def run_function(self, info, enclosing, defaults, kwdefaults, args, kwargs, defcls=None):
+    def run_function(self, info, enclosing, defaults, kwdefaults, args, kwargs, defcls=None, assumed=False,
+                     proving=None):
         loc = self.bind_args(info, defaults, kwdefaults, args, kwargs)
         first = args[0] if args else None
         frame = Frame(info, loc, enclosing, first, defcls)
+        frame.assumed = assumed
+        frame.proving = proving
         if info.is_generator and self.collect is not None and self.collect[0] is info and not self.collect[2]:
             # the generator under verification: its body runs here, yields go to the ghost sequence
             from .gens import CollectGen
@@ -479,13 +486,63 @@ class Interp:
         # --- builtins, method descriptors, other callables
         return self.call_native(f, list(args), kwargs)
 
+    def call_assumed(self, f, args=(), kwargs=None):
+        """Call a spec predicate whose result is going to be ASSUMED true (a precondition, an invariant at a
+        loop head, a postcondition at a call site).  In its frame -- and in the frames of spec functions it
+        calls in `return f(..) and g(..)` positions, whose results then must be true as well -- a statement
+        `if c: return False` does not need a case split: the path on which c holds would be dropped by the
+        assumption anyway, so `not c` is assumed on the spot."""
+        return self._call_spec(f, args, kwargs or {}, True, None)
+
+    def call_assumed_aligned(self, f, args=(), kwargs=None):
+        """call_assumed for the first assumptions of a proof (the precondition of the function under
+        verification): strings that the predicate cuts are aligned with the pieces they already have (by case
+        split), as in code; everywhere else an assumed predicate just states facts."""
+        return self._call_spec(f, args, kwargs or {}, 'aligned', None)
+
+    def call_proving(self, f, args, name, meta, kwargs=None):
+        """Call a spec predicate whose result is going to be PROVED (an obligation `name`).  In its frame (and
+        in `return f(..) and g(..)` positions below it) a statement `if c: return False` becomes the obligation
+        `not c` followed by the assumption `not c`, and a conjunction is proved conjunct by conjunct: the same
+        proof, in smaller steps, without case splits."""
+        return self._call_spec(f, args, kwargs or {}, False, (name, meta))
+
+    def _call_spec(self, f, args, kwargs, assumed, proving):
+        if assumed is True:
+            self.assuming = getattr(self, 'assuming', 0) + 1
+            try:
+                return self._call_spec1(f, args, kwargs, True, proving)
+            finally:
+                self.assuming -= 1
+        return self._call_spec1(f, args, kwargs, bool(assumed), proving)
+
+    def _call_spec1(self, f, args, kwargs, assumed, proving):
+        ab = getattr(self.reg, 'abstractions', {}).get(f) if isinstance(f, types.FunctionType) else None
+        if ab is not None and ab[0](self):
+            return ab[1](self, list(args), kwargs)
+        if isinstance(f, Closure) and _is_spec_file(f.info.filename):
+            return self.run_function(f.info, f.enclosing, f.defaults, f.kwdefaults, args, kwargs, f.defcls_hint,
+                                     assumed=assumed, proving=proving)
+        if isinstance(f, types.FunctionType) and _is_spec_file(f.__code__.co_filename) \
+                and self.reg.contract_for(f) is None and self.reg.model_for(f) is None:
+            info = funcinfo_of(f)
+            enclosing = []
+            if f.__closure__:
+                enclosing = [dict(zip(f.__code__.co_freevars, [_cell(c) for c in f.__closure__]))]
+            return self.run_function(info, enclosing, f.__defaults__ or (), f.__kwdefaults__, args, kwargs, None,
+                                     assumed=assumed, proving=proving)
+        return self.call(f, args, kwargs)
+
     def call_function_object(self, func, args, kwargs, defcls, bound_self=None):
         if not isinstance(func, types.FunctionType):
             # e.g. builtin method bound via BoundMethod
             return self.call_native(func, args, kwargs)
+        ab = getattr(self.reg, 'abstractions', {}).get(func)
+        if ab is not None and ab[0](self):
+            return ab[1](self, list(args), kwargs)
         # contract?
         c = self.reg.contract_for(func)
-        if c is not None and not c.inline:
+        if c is not None and not (c.inline(self.fn_name) if callable(c.inline) else c.inline):
             # a contract stated in ANOTHER sidecar module speaks about arguments of its own shapes only:
             # for arguments of other shapes it says nothing and the real body is interpreted instead
             cur = getattr(self.reg, 'current_module', None)
@@ -720,6 +777,16 @@ class Interp:
         for e in self.loop_frame_stack:
             e['born'].add(id(obj))
 
+    def note_container_write(self, obj):
+        """the contents of a container object (a dictionary over a key universe, ...) are changed: inside the
+        arbitrary iteration of a loop with invariant the container must have been havocked at the loop head
+        (declared in `modifies` with an in-place entry) or be new"""
+        for e in self.loop_frame_stack:
+            if id(obj) not in e['born'] and (id(obj), '<contents>') not in e['declared'] \
+                    and (id(obj), '*') not in e['declared']:
+                raise Unsupported('%s: the loop body changes the contents of a %s that is not declared in modifies'
+                                  % (e['loop'], type(obj).__name__))
+
     def setattr(self, obj, name, value):
         if isinstance(obj, (SOpt, SChoice)):
             obj = self.resolve(obj)
@@ -929,6 +996,21 @@ class Interp:
         if a is b and not isinstance(a, float):
             return True
         if isinstance(a, (SOpt, SChoice)) or isinstance(b, (SOpt, SChoice)):
+            if isinstance(a, SChoice) and isinstance(b, SChoice):
+                # two selections among concrete alternatives: a term over the two indices, no case split
+                pairs = []
+                for i, x in enumerate(a.alts):
+                    for j, y in enumerate(b.alts):
+                        r = self.eq(x, y) if not (isinstance(x, Sym) or isinstance(y, Sym)) else None
+                        if r is None or not isinstance(r, bool):
+                            pairs = None
+                            break
+                        if r:
+                            pairs.append(z3.And(a.idx == i, b.idx == j))
+                    if pairs is None:
+                        break
+                if pairs is not None:
+                    return wrap(z3.Or(*pairs)) if pairs else False
             if isinstance(a, SOpt) and b is None:
                 return wrap(a.is_none)
             if isinstance(b, SOpt) and a is None:
@@ -1098,9 +1180,15 @@ class Interp:
     def contains(self, container, x):
         if isinstance(container, (SOpt, SChoice)):
             container = self.resolve(container)
+        from .pdict import PDict
+        if isinstance(container, PDict):
+            return container.contains(self, x)
         if isinstance(container, (SStr, str)) and isinstance(x, (SStr, str)) and \
                 (isinstance(container, SStr) or isinstance(x, SStr)):
             from . import strings, charclass
+            if strings.aligning(self) and isinstance(x, str) and len(x) == 1 and isinstance(container, SStr):
+                # (with alignment: membership of a single character through the additive counting measure)
+                return wrap(strings.count_term(self, container.t, x) > 0)
             if isinstance(x, str) and isinstance(container, SStr):
                 charclass.contains_link_pattern(self, container.t, z3.StringVal(x))
             return wrap(z3.Contains(strings.norm(self, to_z3(container)), strings.norm(self, to_z3(x))))
@@ -1222,6 +1310,18 @@ class Interp:
 
     def e_BoolOp(self, node, frame):
         is_and = isinstance(node.op, ast.And)
+        if is_and and frame.assumed and id(node) in _assumed_positions(frame.info):
+            # a conjunction whose truth is about to be assumed: assume the conjuncts one after the other
+            # (each is then a plain fact of the context for the next ones, not a temporary hypothesis)
+            for v in node.values:
+                self.st.assume(self.truth(self.eval(v, frame)))
+            return True
+        if is_and and frame.proving is not None and id(node) in _assumed_positions(frame.info):
+            for v in node.values:
+                t = self.truth(self.eval(v, frame))
+                self.st.oblige(frame.proving[0], t, dict(frame.proving[1], step='conjunct at line %d' % v.lineno))
+                self.st.proof_step(t)
+            return True
         vals = node.values
         return self._boolop(is_and, vals, 0, frame)
 
@@ -1383,6 +1483,9 @@ class Interp:
             obj = self.resolve(obj)
         if isinstance(idx, (SOpt, SChoice)):
             idx = self.resolve(idx)
+        from .pdict import PDict
+        if isinstance(obj, PDict):
+            return obj.getitem(self, idx)
         if isinstance(obj, (SStr, SList, models.SMap, models.SMapProxy)) or (isinstance(obj, str) and _slice_sym(idx)):
             return models.sym_getitem(self, obj, idx)
         if isinstance(obj, Opaque):
@@ -1402,6 +1505,15 @@ class Interp:
         if isinstance(obj, dict) or type(obj).__name__ == 'mappingproxy':
             if isinstance(idx, SBool):
                 idx = self.st.fork(idx)
+            if isinstance(idx, SStr) and all(isinstance(k, str) for k in obj.keys()):
+                # lookup with a symbolic string in a dictionary with concrete keys: case split over the keys
+                keys = list(obj.keys())
+                conds = [idx.t == z3.StringVal(k) for k in keys]
+                conds.append(z3.And(*[z3.Not(c) for c in conds]) if conds else z3.BoolVal(True))
+                i = self.st.choose(len(conds), conds)
+                if i == len(keys):
+                    raise PyRaise(KeyError('<symbolic>'))
+                return obj[keys[i]]
             if isinstance(idx, Sym):
                 raise Unsupported('symbolic dict key')
             try:
@@ -1445,6 +1557,12 @@ class Interp:
             else:
                 kwargs[k.arg] = self.eval(k.value, frame)
         frame.call_counter += 1
+        if frame.assumed and id(node) in _assumed_positions(frame.info):
+            if getattr(self, 'assuming', 0):
+                return self.call_assumed(f, args, kwargs)
+            return self.call_assumed_aligned(f, args, kwargs)
+        if frame.proving is not None and id(node) in _assumed_positions(frame.info):
+            return self.call_proving(f, args, frame.proving[0], frame.proving[1], kwargs)
         return self.call(f, args, kwargs)
 
     def _super(self, frame):
@@ -1790,6 +1908,9 @@ class Interp:
         if isinstance(obj, Opaque):
             return self.reg.call_opaque(self, obj, '__setitem__', [idx, value], {})
         from . import models
+        from .pdict import PDict
+        if isinstance(obj, PDict):
+            return obj.setitem(self, idx, value)
         if isinstance(obj, models.SMap):
             return obj.setitem(self, idx, value)
         from .mlist import MList
@@ -1824,6 +1945,9 @@ class Interp:
                         raise PyRaise(IndexError('list assignment index out of range'))
                     obj.delete_first(self)
                     continue
+                if isinstance(obj, MList) and isinstance(idx, int) and idx == -1:
+                    obj.pop(self)
+                    continue
                 if contains_sym(idx, 0) or isinstance(obj, (Sym, Opaque)):
                     raise Unsupported('del with symbolic operand')
                 try:
@@ -1835,6 +1959,19 @@ class Interp:
         return None
 
     def s_If(self, node, frame):
+        if frame.assumed and not node.orelse and len(node.body) == 1 and isinstance(node.body[0], ast.Return) \
+                and isinstance(node.body[0].value, ast.Constant) and node.body[0].value.value is False:
+            # `if c: return False` in a predicate that is being assumed
+            self.st.assume(self.not_(self.eval(node.test, frame)))
+            return None
+        if frame.proving is not None and not node.orelse and len(node.body) == 1 \
+                and isinstance(node.body[0], ast.Return) and isinstance(node.body[0].value, ast.Constant) \
+                and node.body[0].value.value is False:
+            # `if c: return False` in a predicate that is being proved: prove `not c` here, then rely on it
+            nc = self.not_(self.eval(node.test, frame))
+            self.st.oblige(frame.proving[0], nc, dict(frame.proving[1], step='line %d' % node.lineno))
+            self.st.proof_step(nc)
+            return None
         if self.branch(self.eval(node.test, frame)):
             return self.exec_block(node.body, frame)
         return self.exec_block(node.orelse, frame)
@@ -1888,7 +2025,7 @@ class Interp:
                         handler = h
                         break
                     et = self.eval(h.type, frame)
-                    if self._exc_matches(exc, et):
+                    if self.branch(self._exc_matches(exc, et)):      # (symbolic for an opaque exception)
                         handler = h
                         break
                 if handler is None:
@@ -1921,6 +2058,8 @@ class Interp:
 
     def _exc_matches(self, exc, et):
         if isinstance(et, tuple):
+            if isinstance(exc, Opaque):
+                return self.reg.opaque_isinstance(self, exc, et)
             return any(self._exc_matches(exc, t) for t in et)
         if isinstance(exc, Opaque):
             return self.reg.opaque_isinstance(self, exc, et)
@@ -2111,6 +2250,51 @@ def _comp_info(parent_info, gens):
 
 
 _COMP_INFO = {}
+
+
+def _is_spec_file(filename):
+    import os
+    from . import VERIF
+    return bool(filename) and os.path.abspath(filename).startswith(os.path.join(VERIF, 'contracts') + os.sep)
+
+
+_ASSUMED_POS = {}
+
+
+def _assumed_positions(info):
+    """ids of the Call nodes of a function whose value must be true whenever the function's result is:
+    the calls that are the returned expression or an operand of its top-level `and`."""
+    key = id(info.node)
+    r = _ASSUMED_POS.get(key)
+    if r is None:
+        r = set()
+
+        def collect(e):
+            if isinstance(e, ast.Call):
+                r.add(id(e))
+            elif isinstance(e, ast.BoolOp) and isinstance(e.op, ast.And):
+                r.add(id(e))
+                for v in e.values:
+                    collect(v)
+
+        node = info.node
+        if isinstance(node, ast.Lambda):
+            collect(node.body)
+        else:
+            from .loops import _walk_own
+            for n in _walk_own(node):
+                if isinstance(n, ast.Return) and n.value is not None:
+                    collect(n.value)
+                elif isinstance(n, ast.If) and not n.orelse and len(n.body) == 1 \
+                        and isinstance(n.body[0], ast.Return) and isinstance(n.body[0].value, ast.Constant) \
+                        and n.body[0].value.value is False and isinstance(n.test, ast.UnaryOp) \
+                        and isinstance(n.test.op, ast.Not):
+                    # `if not f(..): return False`: f(..) must be true whenever the function's result is
+                    collect(n.test.operand)
+        _ASSUMED_POS[key] = (r, info.node)
+    else:
+        r = r[0]
+    return r if isinstance(r, set) else r[0]
 
 
 def _cell(c):
